@@ -126,7 +126,9 @@ def run(chk, prog):
     distribution.analyse(obs, prog)
     switch.analyse(obs, prog)
     for o in obs.items:
-        if o["rule"] in ("CONCRETE-ELSE-RAISES", "IDX-NORMALISE") or (o["rule"] == "POLARITY" and "C23" in o["props"]):
+        # incl. the masked-constraint arms: a concrete False flag collapses to the unconstrained arm (Choice.build), a traced False flag takes the
+        # masked arm's false branch - both must give (old value, logpdf(old | NEW args) - old score, logpdf(old | NEW args))
+        if o["rule"] in ("CONCRETE-ELSE-RAISES", "IDX-NORMALISE") or "C23" in o["props"]:
             chk.require(o["ok"], o["rule"], o["instance"], o["construct"], derived=o["derived"], expected=o["expected"], where=o["where"])
     # Choice.build: concrete False -> empty, concrete True -> unwrapped value, traced -> Choice(mask)
     CM = "core/generative/choice_map.py"
